@@ -503,7 +503,7 @@ Example go_format_30 :
   Some (str "no digits here").
 Proof. vm_compute. reflexivity. Qed.
 
-(* the 30 reference outputs above (Go 1.26's own Time.Format) in one statement *)
+(* the 30 reference outputs above (Go 1.23.5's own Time.Format) in one statement *)
 Example go_format_reference :
   time_format (mkTime 1707102429012345600 19800) (str "2006-01-02T15:04:05Z07:00") = Some (str "2024-02-05T08:37:09+05:30") /\
   time_format (mkTime 1707102429012345600 19800) (str "Mon, 02 Jan 2006 15:04:05 -0700") = Some (str "Mon, 05 Feb 2024 08:37:09 +0530") /\
